@@ -155,7 +155,7 @@ class GeomMonitor(taps.Monitor):
         p, tl = m.points.astype(float), np.asarray(m.trilist)
         scale = max(1e-12, float(np.abs(p).max()))
         # results are computed in the mesh's own precision
-        ntol = 1e-8 if m.points.dtype == np.float64 else 2e-5
+        ntol = 2e-5 if m.points.dtype == np.float32 else 1e-8
         if exc is not None:
             ctx.fail("geometry_query_raised", cls=cls, mech=self.name + "_%dD_" % m.n_dims + type(exc).__name__, error=repr(exc)[:200])
             return
@@ -163,9 +163,9 @@ class GeomMonitor(taps.Monitor):
             exp = ref_area(p, tl)
             err = np.abs(np.asarray(r) - exp).max() / scale ** 2
             ctx.err("tri_areas_rel", err)
-            if r.shape != (len(tl),) or (r < 0).any() or not np.isfinite(r).all() or not (err <= (1e-7 if m.points.dtype == np.float64 else 1e-4)):
+            if r.shape != (len(tl),) or (r < 0).any() or not np.isfinite(r).all() or not (err <= (1e-4 if m.points.dtype == np.float32 else 1e-7)):
                 ctx.fail("tri_areas_wrong", cls=cls, mech="%dD" % m.n_dims + ("" if np.isfinite(r).all() else ":not_finite"), err=float(err))
-            elif m.points.dtype == np.float64:
+            elif m.points.dtype != np.float32:
                 # thin triangles: the area is small but well defined (rounding of the coordinates costs ~1e-16 * scale^2);
                 # judged relative to the triangle's own area
                 excess = np.abs(np.asarray(r) - exp) - (1e-12 * scale ** 2 + 1e-9 * exp)
@@ -183,7 +183,7 @@ class GeomMonitor(taps.Monitor):
                 # per triangle, the three lengths as a multiset
                 g = np.sort(got.reshape(-1, 3), axis=1)
                 e = np.sort(exp, axis=1)
-                if _amax(g - e) > (1e-9 if m.points.dtype == np.float64 else 1e-5) * scale:
+                if _amax(g - e) > (1e-5 if m.points.dtype == np.float32 else 1e-9) * scale:
                     ctx.fail("edge_lengths_wrong", cls=cls, mech="%dD" % m.n_dims)
         elif self.name == "unique_edge_indices":
             exp = set()
@@ -327,8 +327,17 @@ def make_mesh(rng, cls, d, kind):
     n = len(pts)
     if rng.random() < 0.3:
         tl = tl.astype(np.uint32)
-    if rng.random() < 0.2 and kind != "degenerate":
+    r_ = rng.random()
+    if r_ < 0.2 and kind != "degenerate":
         pts = pts.astype(np.float32)          # meshes loaded from files are often single precision
+    elif r_ < 0.35 and kind not in ("degenerate",):
+        # integer-typed vertex coordinates: pixel / voxel indices, coordinates written as integer literals
+        dt = [np.int64, np.int32, np.int16, np.uint16, np.uint8][rng.integers(0, 5)]
+        span = 250.0 if dt in (np.uint8,) else 900.0
+        q = pts - pts.min(0)
+        q = np.round(q / max(1e-300, q.max()) * span)
+        if len(np.unique(q, axis=0)) == len(q):
+            pts = q.astype(dt)
     if cls == "TriMesh":
         return ms.TriMesh(pts, trilist=tl)
     if cls == "ColouredTriMesh":
@@ -455,7 +464,7 @@ def w_geometry(ctx, rng, i):
         ctx.fail("mean_tri_area_inconsistent", cls=cls)
     ue = m.unique_edge_indices()
     ul = m.unique_edge_lengths()
-    if len(ul) != len(ue) or _amax(ul - np.linalg.norm(m.points[ue[:, 0]] - m.points[ue[:, 1]], axis=1)) > 1e-9 * scale:
+    if len(ul) != len(ue) or _amax(ul - np.linalg.norm(m.points.astype(float)[ue[:, 0]] - m.points.astype(float)[ue[:, 1]], axis=1)) > 1e-9 * scale:
         ctx.fail("unique_edge_lengths_inconsistent_with_unique_edges", cls=cls)
     if abs(m.mean_edge_length(unique=True) - ul.mean()) > 1e-9 * scale or abs(m.mean_edge_length(unique=False) - l0.mean()) > 1e-9 * scale:
         ctx.fail("mean_edge_length_inconsistent", cls=cls)
@@ -465,7 +474,7 @@ def w_geometry(ctx, rng, i):
     if d == 3:
         n0, n1 = m.tri_normals(), mr.tri_normals()
         m.vertex_normals(); mr.vertex_normals()
-        t = m.points[np.asarray(m.trilist)]
+        t = m.points.astype(float)[np.asarray(m.trilist)]
         area = 0.5 * np.linalg.norm(np.cross(t[:, 1] - t[:, 0], t[:, 2] - t[:, 0]), axis=1)
         ok = area > 1e-6 * scale ** 2
         if ok.any():
